@@ -138,3 +138,46 @@ package beacon
 //@   csensures[at_most_requested] howMany > 0 ==> len(out) <= howMany
 //@   csensures[only_expired] forall i in 0..len(selected): expired(selected[i], now)
 //@   csensures[nothing_lost] len(selected) + len(b.treasuresByOrder) == old(len(b.treasuresByOrder))
+
+// ShiftMatching (properties C11, C12): the parametric claim. Under the index lock:
+//   - the predicate is evaluated on a record only while that record's guard is held by this call, and a
+//     record is cloned (claimed) only if the predicate held for it under that same guard: what is handed
+//     out matched the filter AT THE MOMENT it was claimed;
+//   - no matching record is skipped while budget remains (oldest-first in index order);
+//   - at most howMany records, and with a cap never more than capMax minus the records already matching;
+//   - claimed records leave the index; nothing else does.
+//@ func (*beacon).ShiftMatching(b, howMany, predicate, capPredicate, capMax) (out, capReached)
+//@   property C11 C12
+//@   nopanic
+//@   overflow: assumed
+//@   requires[records] forall i in 0..len(b.treasuresByOrder): b.treasuresByOrder[i] != nil
+//@   requires[key_map] forall k in keys(b.treasuresByKeys): b.treasuresByKeys[k] != nil
+//@   modifies *
+//@   before predicate [record_guarded_while_matched] calls("Treasure.StartTreasureGuard") - old(calls("Treasure.StartTreasureGuard")) == calls("Treasure.ReleaseTreasureGuard") - old(calls("Treasure.ReleaseTreasureGuard")) + 1 && calledwith("Treasure.StartTreasureGuard", 0, arg0)
+//@   before Treasure.Clone [only_matching_records_are_claimed] fnb(predicate, arg0)
+//@   before Treasure.Clone [claimed_under_its_guard] calls("Treasure.StartTreasureGuard") - old(calls("Treasure.StartTreasureGuard")) == calls("Treasure.ReleaseTreasureGuard") - old(calls("Treasure.ReleaseTreasureGuard")) + 1 && calledwith("Treasure.StartTreasureGuard", 0, arg0) && arg1 == lastret("Treasure.StartTreasureGuard")
+//@   loop 0 invariant[count_nonneg] currentMatching >= 0
+//@   loop 1 invariant[counter] counter == len(shiftedTreasures) && counter >= 0 && counter <= effectiveHowMany && (capPredicate != nil ==> effectiveHowMany <= max(capMax, 0))
+//@   loop 1 invariant[partition] len(shiftedTreasures) + len(remainingTreasures) == rangeindex + 1
+//@   loop 1 invariant[index_untouched] forall i in 0..len(b.treasuresByOrder): b.treasuresByOrder[i] == old(b.treasuresByOrder[i])
+//@   loop 1 invariant[outputs_private] (!isnil(shiftedTreasures) ==> fresh(shiftedTreasures)) && (!isnil(remainingTreasures) ==> fresh(remainingTreasures)) && (!isnil(shiftedTreasures) && !isnil(remainingTreasures) ==> sliceid(shiftedTreasures) != sliceid(remainingTreasures))
+//@   loop 1 invariant[guards_balanced] calls("Treasure.StartTreasureGuard") - old(calls("Treasure.StartTreasureGuard")) == calls("Treasure.ReleaseTreasureGuard") - old(calls("Treasure.ReleaseTreasureGuard"))
+//@   loop 1 invariant[skipped_only_without_budget] forall i in 0..len(remainingTreasures): fnb(predicate, remainingTreasures[i]) ==> counter >= effectiveHowMany
+//@   csensures[never_more_than_cap] capPredicate != nil ==> len(out) <= max(capMax, 0)
+//@   csensures[at_most_requested] len(out) <= max(howMany, 0)
+//@   csensures[no_match_left_while_budget] forall i in 0..len(b.treasuresByOrder): fnb(predicate, b.treasuresByOrder[i]) ==> len(shiftedTreasures) >= effectiveHowMany
+//@   csensures[nothing_lost] len(shiftedTreasures) + len(b.treasuresByOrder) == old(len(b.treasuresByOrder))
+
+// ReindexExpiration (property C11, oldest-first): records whose expiry was patched are put back into
+// the expiry index, and the index is then ALWAYS re-sorted ascending by expiry with the comparator
+// below (sort.Slice is assumed to sort by the comparator it is given).
+//@ trusted func sort.Slice(x, less)
+//@ func (*beacon).ReindexExpiration$1(k, l) (r)
+//@   property C11
+//@   requires[in_range] 0 <= k && k < len(b.treasuresByOrder) && 0 <= l && l < len(b.treasuresByOrder) && b.treasuresByOrder[k] != nil && b.treasuresByOrder[l] != nil
+//@   modifies *
+//@   ensures[ascending_by_expiry] r <==> U_treasure_exp(b.treasuresByOrder[k]) < U_treasure_exp(b.treasuresByOrder[l])
+//@ func (*beacon).ReindexExpiration(b, treasures)
+//@   property C11
+//@   modifies *
+//@   ensures[index_resorted_whenever_records_return] len(treasures) > 0 && old(b.isOrdered) ==> calls("Slice") == old(calls("Slice")) + 1 && litof(lastarg("Slice", 1)) == 1 && b.sortOrder == SortByExpirationTimeAsc
